@@ -194,74 +194,44 @@ Definition absent_step (acc : labelset * list string) (m : matcher) : labelset *
        then (ls_set b (m_name m) (m_value m), m_name m :: seen)
        else (ls_without b [m_name m], seen).
 
-(** a label of the engine's absent() result comes from an equality matcher with a non-empty value *)
-Lemma absent_fold_has ms : forall b seen l,
-  has (fst (fold_left absent_step ms (b, seen))) l = true ->
-  has b l = true \/
-  exists m, In m ms /\ m_name m = l /\ m_type m = MEq /\ m_value m <> "" /\ m_name m <> metric_name.
+(** the analyser's walk (absentLabels) and the engine's walk (createLabelsForAbsentFunction) in lock step: same [seen],
+    and every label the engine's builder holds is a name the analyser collected *)
+Lemma absent_walks ms : forall b seen names,
+  (forall l, has b l = true -> In l names) ->
+  forall l, has (fst (fold_left absent_step ms (b, seen))) l = true ->
+            In l (fst (fold_left absent_walk ms (names, seen))).
 Proof.
-  induction ms as [|m r IH]; intros b seen l Hl; cbn [fold_left] in Hl; [left; exact Hl|].
-  destruct (absent_step (b, seen) m) as [b' seen'] eqn:Est.
-  apply IH in Hl. destruct Hl as [Hl|[m' [H1 H2]]]; [|right; exists m'; simpl; tauto].
-  unfold absent_step in Est.
-  destruct (String.eqb (m_name m) metric_name) eqn:En.
-  - inversion Est; subst. left. exact Hl.
-  - destruct (matchtype_eqb (m_type m) MEq && negb (mem_str (m_name m) seen)) eqn:E; inversion Est; subst; clear Est.
-    + apply andb_true_iff in E. destruct E as [E1 _].
-      assert (Ht : m_type m = MEq) by (destruct (m_type m); simpl in E1; congruence).
-      apply has_get in Hl. rewrite get_set in Hl. destruct (String.eqb l (m_name m)) eqn:El.
-      * apply String.eqb_eq in El. right. exists m. simpl. apply String.eqb_neq in En. repeat split; auto.
-      * left. apply has_get. exact Hl.
-    + apply has_get in Hl. rewrite get_without in Hl. simpl in Hl.
-      destruct (String.eqb l (m_name m)); [congruence|]. left. apply has_get. exact Hl.
+  induction ms as [|m r IH]; intros b seen names Hinv l Hl; cbn [fold_left] in *; [apply Hinv; exact Hl|].
+  unfold absent_step at 2 in Hl. unfold absent_walk at 2.
+  destruct (String.eqb (m_name m) metric_name) eqn:En; [apply (IH b seen names Hinv l Hl)|].
+  destruct (matchtype_eqb (m_type m) MEq && negb (mem_str (m_name m) seen)) eqn:E.
+  - destruct (String.eqb (m_value m) "") eqn:Ev; cbn [negb].
+    + apply String.eqb_eq in Ev. refine (IH _ _ _ _ l Hl). intros l' Hl'.
+      unfold ls_set in Hl'. rewrite Ev in Hl'. cbn [String.eqb] in Hl'.
+      apply has_get in Hl'. rewrite get_without in Hl'. simpl in Hl'.
+      destruct (String.eqb l' (m_name m)) eqn:El; [congruence|].
+      apply In_remove_from_keep; [apply Hinv; apply has_get; exact Hl'|].
+      simpl. intros [H|[]]. subst l'. rewrite String.eqb_refl in El. discriminate.
+    + refine (IH _ _ _ _ l Hl). intros l' Hl'. apply In_append_to.
+      apply has_get in Hl'. rewrite get_set in Hl'.
+      destruct (String.eqb l' (m_name m)) eqn:El.
+      * apply String.eqb_eq in El. right. left. auto.
+      * left. apply Hinv. apply has_get. exact Hl'.
+  - refine (IH _ _ _ _ l Hl). intros l' Hl'.
+    apply has_get in Hl'. rewrite get_without in Hl'. simpl in Hl'.
+    destruct (String.eqb l' (m_name m)) eqn:El; [congruence|].
+    apply In_remove_from_keep; [apply Hinv; apply has_get; exact Hl'|].
+    simpl. intros [H|[]]. subst l'. rewrite String.eqb_refl in El. discriminate.
 Qed.
 
-Lemma count_name_nodup ms : nodup_names ms = true -> forall m, In m ms -> count_name (m_name m) ms = 1%nat.
-Proof.
-  unfold count_name. induction ms as [|x r IH]; intros Hn m Hin; [destruct Hin|].
-  cbn [nodup_names] in Hn. apply andb_true_iff in Hn. destruct Hn as [Hx Hr]. apply negb_true_iff in Hx.
-  assert (Hnone : forall y, In y r -> String.eqb (m_name y) (m_name x) = false).
-  { intros y Hy. destruct (String.eqb (m_name y) (m_name x)) eqn:E; auto.
-    assert (existsb (fun m' => String.eqb (m_name m') (m_name x)) r = true) by (apply existsb_exists; eauto). congruence. }
-  cbn [filter]. destruct Hin as [<-|Hin].
-  - rewrite String.eqb_refl. cbn [List.length]. f_equal.
-    assert (Hf : filter (fun m0 => String.eqb (m_name m0) (m_name x)) r = []).
-    { clear IH Hr Hx. induction r as [|y r' IHr]; [reflexivity|]. cbn [filter].
-      rewrite (Hnone y (or_introl eq_refl)). apply IHr. intros z Hz. apply Hnone. right. exact Hz. }
-    rewrite Hf. reflexivity.
-  - assert (E : String.eqb (m_name x) (m_name m) = false).
-    { rewrite String.eqb_sym. apply Hnone. exact Hin. }
-    rewrite E. apply IH; auto.
-Qed.
-
-Lemma absent_names_fold_mono ms0 ms : forall acc l,
-  In l acc -> In l (fold_left (fun names lm => if absent_skip ms0 lm then names else append_to_slice names [m_name lm]) ms acc).
-Proof.
-  induction ms as [|m r IH]; intros acc l H; cbn [fold_left]; auto. apply IH.
-  destruct (absent_skip ms0 m); auto. apply In_append_to. tauto.
-Qed.
-
-Lemma absent_names_fold_in ms0 ms : forall acc m,
-  In m ms -> absent_skip ms0 m = false ->
-  In (m_name m) (fold_left (fun names lm => if absent_skip ms0 lm then names else append_to_slice names [m_name lm]) ms acc).
-Proof.
-  induction ms as [|x r IH]; intros acc m Hin Hs; [destruct Hin|]. cbn [fold_left]. destruct Hin as [<-|Hin].
-  - rewrite Hs. apply absent_names_fold_mono. apply In_append_to. right. left. reflexivity.
-  - apply IH; auto.
-Qed.
-
-(** under [nodup_names], every label of the engine's absent() result is one absentLabels returns *)
 Lemma absent_labels_names ms l :
-  nodup_names ms = true ->
-  has (fst (fold_left absent_step ms ([], []))) l = true ->
-  In l (fold_left (fun names lm => if absent_skip ms lm then names else append_to_slice names [m_name lm]) ms []).
+  has (fst (fold_left absent_step ms ([], []))) l = true -> In l (fst (fold_left absent_walk ms ([], []))).
 Proof.
-  intros Hnd H. apply absent_fold_has in H. destruct H as [H|[m [Hin [Hn [Ht [Hv Hne]]]]]].
-  - unfold has, get in H. simpl in H. discriminate.
-  - subst l. apply absent_names_fold_in; [exact Hin|].
-    unfold absent_skip. rewrite Ht, (count_name_nodup ms Hnd m Hin).
-    apply String.eqb_neq in Hne. apply String.eqb_neq in Hv. rewrite Hne, Hv. reflexivity.
+  apply absent_walks. intros l' Hl'. unfold has, get in Hl'. simpl in Hl'. discriminate.
 Qed.
+
+Lemma unwrap_strip e : unwrap_parens e = strip_parens e.
+Proof. reflexivity. Qed.
 
 Lemma sel_src_selector ms : s_selector (sel_src ms) = Some ms.
 Proof.
@@ -273,20 +243,18 @@ Proof.
 Qed.
 
 Definition sel_of_arg (a : expr) : option (list matcher) :=
-  match a with ESel ms => Some ms | EMatrix (ESel ms) => Some ms | _ => None end.
+  match strip_parens a with ESel ms => Some ms | EMatrix (ESel ms) => Some ms | _ => None end.
 
 Lemma call_src_absent f a a0 es ms l :
-  func_kind f = "absent" -> sel_of_arg a = Some ms -> nodup_names ms = true -> nd es ->
+  func_kind f = "absent" -> sel_of_arg a = Some ms -> nd es ->
   has (fst (fold_left absent_step ms ([], []))) l = true ->
   can_have_label (call_src f [a] a0 es) l = true.
 Proof.
-  intros Hk Hs Hnn Hnd Hl. rewrite call_src_unfold, (ppf_absent _ _ _ _ Hk).
+  intros Hk Hs Hnd Hl. rewrite call_src_unfold, (ppf_absent _ _ _ _ Hk).
   apply fold_absent_can_have.
   - exact Hnd.
-  - left. cbn [nth_error]. unfold absent_names.
-    assert (E : match a with ESel ms0 => Some ms0 | EMatrix (ESel ms0) => Some ms0 | _ => None end = Some ms).
-    { exact Hs. }
-    rewrite E. apply absent_labels_names; assumption.
+  - left. cbn [nth_error]. unfold absent_names. rewrite unwrap_strip.
+    unfold sel_of_arg in Hs. rewrite Hs. apply absent_labels_names. exact Hl.
 Qed.
 
 (** ** argument sources *)
